@@ -10,6 +10,7 @@ A guard is `<expr> = <edge value>` for a SwitchInt in a dominator whose taken ed
 import mir
 
 MAXD = 7
+COPY_HOPS_FREE = True
 
 
 class Sym:
@@ -69,7 +70,9 @@ class Sym:
             return "u%d" % l if False else "?"
         exprs = []
         if len(ds) == 1:
-            return self.rvalue(ds[0][2], depth + 1, stack + (l,))
+            # plain copies / reborrows / casts are not structure: a named temporary must not change the elision depth
+            hop = 0 if (COPY_HOPS_FREE and ds[0][2]["k"] in ("Use", "Ref", "CopyForDeref", "RawPtr", "Cast")) else 1
+            return self.rvalue(ds[0][2], depth + hop, stack + (l,))
         inloop = self.loop_blocks()
         alts = []
         for d in ds:
